@@ -123,6 +123,9 @@ pub mod repofile;
 pub(crate) mod repository;
 /// Virtual File System support - allows to act on the repository like on a file system
 pub mod vfs;
+/// Hooks for the external verification harness (not part of the library API)
+#[cfg(rustic_core_verif)]
+pub mod verif_hooks;
 
 // re-export jiff
 pub use jiff;
